@@ -185,6 +185,15 @@ func (c *panicClient) reportAs(e *Engine, x, simplified ast.Expr, ok bool, how s
 			e.Site("C12/panic", site, x, true, "reviewed: "+why)
 			return
 		}
+		// an element selected from a list where the reviewed row speaks of a value of the element type
+		if k3 := c.fn + "|" + c.p.normExprElem(simplified); k3 != k {
+			if why, rev := reviewedIndex[k3]; rev {
+				// the selected element itself must be in range (decided as its own obligation)
+				c.used[k3] = true
+				e.Site("C12/panic", site, x, true, "reviewed: "+why)
+				return
+			}
+		}
 		// inside a helper interpreted in place: the row recorded for the helper itself
 		if fr := e.Frames(); len(fr) > 0 {
 			f := fr[len(fr)-1]
@@ -242,11 +251,9 @@ func (c *panicClient) dischargeIndex(e *Engine, st *State, base, idx ast.Expr) (
 		case *ast.CallExpr:
 			call = v // the index variable already looked through
 		}
-		if bo := objOf(info, base); bo != nil && call != nil && len(call.Args) == 2 && objOf(info, call.Args[0]) == bo {
-			if f := Callee(info, call); f != nil && f.Pkg() != nil && f.Pkg().Path() == "strings" && (strings.HasPrefix(f.Name(), "Index") || strings.HasPrefix(f.Name(), "LastIndex")) {
-				if fct := e.FactOf(st, idx); fct != nil && fct.Lo != nil && *fct.Lo >= 0 && c.unassignedBetween(call, base, bo) {
-					return true, "I-found: the index strings.Index* reported for this very string, known not to be -1"
-				}
+		if bo := objOf(info, base); bo != nil && call != nil && c.indexOfBase(call, base) {
+			if fct := e.FactOf(st, idx); fct != nil && fct.Lo != nil && *fct.Lo >= 0 && c.unassignedBetween(call, base, bo) {
+				return true, "I-found: the index a search reported for this very string or slice, known not to be negative"
 			}
 		}
 	}
@@ -421,6 +428,46 @@ func (c *panicClient) dischargeSlice(e *Engine, st *State, x *ast.SliceExpr) (bo
 	if x.Low == nil && x.High != nil {
 		if v, ok := constInt(info, x.High); ok && v == 0 {
 			return true, "I-const: e[:0]"
+		}
+	}
+	// e[:max(f(e, ...), 0)] with f a search that reports a position inside e or a negative number: the bound lies in
+	// [0, len(e)]; e[f(e, ...)+1:] and e[:f(e, ...)] where the result is known not to be negative
+	if (x.Low == nil) != (x.High == nil) {
+		if bo := objOf(info, x.X); bo != nil {
+			b := ast.Unparen(x.High)
+			if x.High == nil {
+				b = ast.Unparen(x.Low)
+			}
+			asCall := func(y ast.Expr) *ast.CallExpr {
+				switch v := ast.Unparen(y).(type) {
+				case *ast.CallExpr:
+					return v
+				case *ast.Ident:
+					cl, _ := ast.Unparen(c.p.DefExpr(v)).(*ast.CallExpr)
+					return cl
+				}
+				return nil
+			}
+			if mx, ok := b.(*ast.CallExpr); ok && IsBuiltinCall(info, mx, "max") && len(mx.Args) == 2 && x.High != nil {
+				for i := 0; i < 2; i++ {
+					if z, isC := constInt(info, mx.Args[1-i]); isC && z == 0 {
+						if cl := asCall(mx.Args[i]); cl != nil && c.indexOfBase(cl, x.X) && c.unassignedBetween(cl, x.X, bo) {
+							return true, "I-found: max(position reported by a search in this very slice, 0) lies in [0, len]"
+						}
+					}
+				}
+			}
+			k := int64(0)
+			if bin, ok := b.(*ast.BinaryExpr); ok && bin.Op == token.ADD {
+				if v, isC := constInt(info, bin.Y); isC && (v == 0 || v == 1) {
+					k, b = v, ast.Unparen(bin.X)
+				}
+			}
+			if cl := asCall(b); cl != nil && c.indexOfBase(cl, x.X) && c.unassignedBetween(cl, x.X, bo) {
+				if fct := e.FactOf(st, b); fct != nil && fct.Lo != nil && *fct.Lo >= 0 {
+					return true, fmt.Sprintf("I-found: position reported by a search in this very slice, known not to be negative (+%d)", k)
+				}
+			}
 		}
 	}
 	// e[:i] / e[i:] with i the index variable of a loop over all indices of e
@@ -1276,6 +1323,11 @@ func (p *Program) scannerTextOf(x, sc ast.Expr) bool {
 // unassignedBetween: from and to lie in the same statement list (to possibly nested in a later statement) and no
 // statement from the one holding from up to the one holding to assigns the variable.
 func (c *panicClient) unassignedBetween(from, to ast.Node, v types.Object) bool {
+	return c.p.unassignedBetween(from, to, v)
+}
+
+func (p *Program) unassignedBetween(from, to ast.Node, v types.Object) bool {
+	c := struct{ p *Program }{p}
 	info := c.p.Info
 	// the statement list that directly holds the statement of from
 	var stmt ast.Node = from
@@ -1299,8 +1351,15 @@ func (c *panicClient) unassignedBetween(from, to ast.Node, v types.Object) bool 
 						return false // after the use
 					}
 					if as, ok := n.(*ast.AssignStmt); ok && as != stmt {
+						// x = x[i+1:]: the right-hand side is evaluated before the store
+						usedInRhs := false
+						for _, rh := range as.Rhs {
+							if rh.Pos() <= to.Pos() && to.End() <= rh.End() {
+								usedInRhs = true
+							}
+						}
 						for _, l := range as.Lhs {
-							if objOf(info, l) == v {
+							if objOf(info, l) == v && !usedInRhs {
 								written = true
 							}
 						}
@@ -1322,4 +1381,98 @@ func (c *panicClient) unassignedBetween(from, to ast.Node, v types.Object) bool 
 		stmt = par
 	}
 	return false
+}
+
+// indexOfBase: call is `f(base, ...)` where f reports a position inside its first argument or a negative number:
+// strings.Index*/LastIndex*, slices.Index/IndexFunc/BinarySearch-free searches, or a module function every return of
+// which is a negative constant or the index variable of a loop over all indices of its first parameter.
+func (c *panicClient) indexOfBase(call *ast.CallExpr, base ast.Expr) bool {
+	info := c.p.Info
+	if call == nil || len(call.Args) < 1 {
+		return false
+	}
+	bo := objOf(info, base)
+	if bo == nil || objOf(info, call.Args[0]) != bo {
+		return false
+	}
+	f := Callee(info, call)
+	if f == nil {
+		return false
+	}
+	if f.Pkg() != nil {
+		switch f.Pkg().Path() {
+		case "strings", "bytes":
+			return strings.HasPrefix(f.Name(), "Index") || strings.HasPrefix(f.Name(), "LastIndex")
+		case "slices":
+			return f.Name() == "Index" || f.Name() == "IndexFunc"
+		}
+	}
+	decl, _ := c.p.DeclOf(f)
+	if decl == nil || decl.Body == nil || decl.Type.Params == nil || len(decl.Type.Params.List) == 0 || len(decl.Type.Params.List[0].Names) == 0 {
+		return false
+	}
+	param := info.Defs[decl.Type.Params.List[0].Names[0]]
+	if param == nil {
+		return false
+	}
+	ok, rets := true, 0
+	ast.Inspect(decl.Body, func(n ast.Node) bool {
+		if _, nested := n.(*ast.FuncLit); nested {
+			return false
+		}
+		ret, isRet := n.(*ast.ReturnStmt)
+		if !isRet {
+			return true
+		}
+		rets++
+		if len(ret.Results) != 1 {
+			ok = false
+			return true
+		}
+		if v, isC := constInt(info, ret.Results[0]); isC {
+			if v >= 0 {
+				ok = false
+			}
+			return true
+		}
+		io := objOf(info, ret.Results[0])
+		inLoop := false
+		if io != nil {
+			for a := c.p.Parent(ret); a != nil; a = c.p.Parent(a) {
+				switch l := a.(type) {
+				case *ast.ForStmt:
+					if (isCountedLoopOver(info, l, io, decl.Type.Params.List[0].Names[0]) || isDownLoopOver(info, l, io, param)) && !writesTo(info, l.Body, io) && !writesTo(info, l.Body, param) {
+						inLoop = true
+					}
+				case *ast.RangeStmt:
+					if l.Key != nil && objOf(info, l.Key) == io && objOf(info, l.X) == param && !writesTo(info, l.Body, io) && !writesTo(info, l.Body, param) {
+						inLoop = true
+					}
+				}
+			}
+		}
+		if !inLoop {
+			ok = false
+		}
+		return true
+	})
+	return ok && rets > 0
+}
+
+// isDownLoopOver: for i := len(p) - 1; i >= 0; i-- { ... }
+func isDownLoopOver(info *types.Info, l *ast.ForStmt, i, p types.Object) bool {
+	as, ok := l.Init.(*ast.AssignStmt)
+	if !ok || len(as.Lhs) != 1 || len(as.Rhs) != 1 || objOf(info, as.Lhs[0]) != i || !isLenMinus1(info, as.Rhs[0], p) {
+		return false
+	}
+	cond, ok := ast.Unparen(l.Cond).(*ast.BinaryExpr)
+	if !ok || objOf(info, cond.X) != i {
+		return false
+	}
+	z, isC := constInt(info, cond.Y)
+	if !(isC && (cond.Op == token.GEQ && z == 0 || cond.Op == token.GTR && z == -1)) {
+		return false
+	}
+	dec, ok := l.Post.(*ast.IncDecStmt)
+	return ok && dec.Tok == token.DEC && objOf(info, dec.X) == i
 }
